@@ -959,7 +959,14 @@ theorem spec_exitSession (cf : Cfg) (q p : Bool) (r : Except Exc Unit) (s : St) 
       (fun _ s' => Inv cf q p s' ∧ s'.hasCache = false ∧ (q = false ∨ ∃ e, r = .error e)) s := by
   cases r with
   | ok u =>
-    simp only [exitSession, wp_bind, wp_getS, wp_ite, wp_pure]
+    simp only [exitSession, wp_bind, wp_getS, wp_ite, wp_pure, wp_tryCatch, wp_raise]
+    have handler : ∀ (e : Exc) (s1 : St), (Inv cf q p s1 ∧ s1.hasCache = false) ∧ q = false →
+        wp (coreRollback cf) (fun _ s' => Inv cf q p s' ∧ s'.hasCache = false ∧ (q = false ∨ ∃ e, (Except.ok u : Except Exc Unit) = .error e))
+          (fun _ s' => Inv cf q p s' ∧ s'.hasCache = false ∧ (q = false ∨ ∃ e, (Except.ok u : Except Exc Unit) = .error e)) s1 := by
+      intro e s1 h
+      refine wp_mono (spec_coreRollback cf q p s1 h.1.1) ?_ ?_
+      · intro _ s2 h2; exact ⟨h2.1, h2.2, .inl h.2⟩
+      · intro _ s2 h2; exact ⟨h2.1.1, h2.1.2, .inl h.2⟩
     refine wp_mono (spec_coreCommit cf q p s hI) ?_ ?_
     · rintro _ s1 ⟨hI1, hin1⟩
       cases hh : s1.hasCache with
@@ -968,8 +975,8 @@ theorem spec_exitSession (cf : Cfg) (q p : Bool) (r : Except Exc Unit) (s : St) 
         simp only [if_true]
         refine wp_mono (spec_cacheClose cf q p false s1 hI1 (fun _ => hin1 hh)) ?_ ?_
         · intro _ s2 h; exact h
-        · intro _ s2 h; exact ⟨h.1.1, h.1.2, .inl h.2⟩
-    · intro _ s1 h; exact ⟨h.1.1, h.1.2, .inl h.2⟩
+        · intro e s2 h; exact handler e s2 h
+    · intro e s1 h; exact handler e s1 h
   | error e =>
     simp only [exitSession, wp_bind, wp_tryCatch, wp_pure, wp_raise]
     refine wp_mono (spec_coreRollback cf q p s hI) ?_ ?_
